@@ -3,7 +3,7 @@
 //! witnesses, bad grinding, foreign verifier data) the outer circuit's verdict — assignment through
 //! the library's own routines, witness generation, proving, verifying the outer proof — is compared
 //! with the native verdict and with the Lean verifier model's verdict on the inner proof.
-use plonky2::field::types::Field;
+use plonky2::field::types::{Field, PrimeField64};
 use plonky2::iop::generator::generate_partial_witness;
 use plonky2::iop::witness::{PartialWitness, PartitionWitness, WitnessWrite};
 use plonky2::plonk::circuit_builder::CircuitBuilder;
@@ -75,6 +75,9 @@ pub fn emit(e: &mut Emitter, seed: u64, thorough: bool) {
         let mut config = gen_config(&mut r, true);
         config.fri_config.num_query_rounds = r.range(2, 4) as usize;
         if made % 3 == 2 { config.zero_knowledge = false; }
+        // the first inner circuit has ONE query round and real grinding, so that a proof with weak
+        // grinding and everything else valid can be constructed (see "weak grinding" below)
+        if made == 0 { config.fri_config.num_query_rounds = 1; config.fri_config.proof_of_work_bits = r.range(6, 16) as u32; }
         e.stage(&format!("building+proving an inner circuit ({} ops, config {:?})", prog.ops.len(), config));
         let built = std::panic::catch_unwind(std::panic::AssertUnwindSafe(|| prog.build_with_targets(config.clone())));
         let Ok((inner, pw, targets)) = built else { e.count("inadmissible inner config"); continue; };
@@ -117,10 +120,42 @@ pub fn emit(e: &mut Emitter, seed: u64, thorough: bool) {
                 judge(e, &format!("tampered: {cls}"), &p2, &inner);
             }
         }
+        // wrong number of public inputs (surplus / missing), proof itself untouched
+        let mut p2 = proof.clone();
+        p2.public_inputs.push(F::from_canonical_u64(r.below(P)));
+        judge(e, "public inputs: one surplus element", &p2, &inner);
+        if !proof.public_inputs.is_empty() {
+            let mut p2 = proof.clone();
+            p2.public_inputs.pop();
+            judge(e, "public inputs: last element missing", &p2, &inner);
+        }
         // bad grinding
         let mut p2 = proof.clone();
         p2.proof.opening_proof.pow_witness += F::ONE;
         judge(e, "bad grinding: pow witness changed", &p2, &inner);
+        // weak grinding, everything else valid: with one query round, search a pow_witness whose response
+        // has k leading zeros, 1 <= k < proof_of_work_bits (and, separately, k = 0), and whose re-derived
+        // query index is the one the honest proof answers — the only failing check is then the grinding
+        if inner.common.config.fri_config.num_query_rounds == 1 && inner.common.config.fri_config.proof_of_work_bits >= 2 {
+            let pih = proof.get_public_inputs_hash();
+            let dg = &inner.verifier_only.circuit_digest;
+            let idx0 = proof.get_challenges(pih, dg, &inner.common).unwrap().fri_challenges.fri_query_indices;
+            let pow_bits = inner.common.config.fri_config.proof_of_work_bits;
+            let (mut some_zeros, mut no_zero) = (None, None);
+            e.stage("searching weakly ground pow witnesses for the one-query inner proof");
+            for w in 0..(1u64 << 17) {
+                if some_zeros.is_some() && no_zero.is_some() { break; }
+                let mut p2 = proof.clone();
+                p2.proof.opening_proof.pow_witness = F::from_canonical_u64(w);
+                let ch = p2.get_challenges(pih, dg, &inner.common).unwrap().fri_challenges;
+                if ch.fri_query_indices != idx0 { continue; }
+                let lz = ch.fri_pow_response.to_canonical_u64().leading_zeros();
+                if lz >= 1 && lz < pow_bits && some_zeros.is_none() { some_zeros = Some(p2); }
+                else if lz == 0 && no_zero.is_none() { no_zero = Some(p2); }
+            }
+            match some_zeros { Some(p2) => judge(e, "weak grinding: 1 <= leading zeros < pow_bits, all else valid", &p2, &inner), None => e.count("weak grinding: no witness found (some zeros)") }
+            match no_zero { Some(p2) => judge(e, "weak grinding: no leading zero, all else valid", &p2, &inner), None => e.count("weak grinding: no witness found (no zero)") }
+        }
         // false statement: a proof the real prover emits for a witness violating a gate
         if let Ok(Ok(wit)) = std::panic::catch_unwind(std::panic::AssertUnwindSafe(|| generate_partial_witness(pw.clone(), &inner.prover_only, &inner.common))) {
             for _ in 0..(2 * per_class) {
